@@ -19,6 +19,20 @@ FactOf(zn) == IF zn = 0 THEN 1 ELSE zn * FactOf(zn - 1)
 SumTo(zn) == (zn * (zn + 1)) \div 2
 
 TreeN(ztr) == Len(TREES[ztr].kids)
+
+(* lend, lendt: what each activation of Lend must see.  LendW(k, arg) = the value of the   *)
+(* parameter dw the activation with dn = k was called with; the borrower then writes,       *)
+(* through the references, da := 10k + k and dw := 2 * dw + da; the nested activation of    *)
+(* Lend (called with dw + 1) must not disturb either of them.                               *)
+RECURSIVE LendW(_, _)
+LendW(zk, zarg) == IF zk = zarg THEN 7 ELSE 2 * LendW(zk + 1, zarg) + 11 * (zk + 1) + 1
+LendSeen(zk, zarg) == << zk, 2 * LendW(zk, zarg) + 11 * zk, 11 * zk >>              \* logged at d2
+LendBorrowed(zk, zarg) == << -zk, 11 * zk, 2 * LendW(zk, zarg) + 11 * zk >>          \* logged at w4
+LendOut(zarg, ztail) ==
+    << << 0, LendW(0, zarg), 0 >> >> \o
+    (IF ztail THEN [zi \in 1..zarg |-> LendSeen(zi, zarg)]
+              ELSE [zi \in 1..(2 * zarg) |-> IF zi % 2 = 1 THEN LendBorrowed((zi + 1) \div 2, zarg)
+                                                          ELSE LendSeen(zi \div 2, zarg)])
 Results ==
     PC = "Done" =>
       /\ STK = << >>
@@ -43,13 +57,16 @@ Results ==
             \A zk \in 1..Len(out) : /\ out[zk][1] = zk - 1
                                     /\ out[zk][2] = 2 * out[zk][1] + 1
                                     /\ {out[zk][3], out[zk][4]} = {mem.g1, mem.g2} \/ zk < Len(out)
+      /\ prog = "lend" => res = 2 /\ out = LendOut(arg, FALSE)
+      /\ prog = "lendt" => res = 2 /\ out = LendOut(arg, TRUE)
       /\ prog = "tree" =>
             /\ Len(out) = TreeN(arg)
             /\ {out[zk][1] : zk \in 1..Len(out)} = 1..TreeN(arg)
             /\ \A zk \in 1..Len(out) : out[zk][2] = out[zk][1] * 7 + arg
 
 (* pcs of the cross-procedure tail calls of the family, with the calling procedure *)
-NoStaleParam == PC = "ta2" => ~LiveIn(Tail(STK), "A")
+NoStaleParam == /\ PC = "ta2" => ~LiveIn(Tail(STK), "A")
+                /\ (PC = "w3" /\ wt) => ~LiveIn(Tail(STK), "Borrow")
 
 Export ==
     /\ ndJsonSerialize("family.ndjson",
